@@ -753,6 +753,18 @@ fn to_array(mac: &[u8]) -> Option<[u8; 6]> {
     mac[0..6].try_into().ok()
 }
 
+/// Verification hooks (built only with `--cfg erbium_verif`): the two private
+/// helpers that every received packet / every reply goes through.
+#[cfg(erbium_verif)]
+pub mod verif {
+    pub fn log_options(req: &super::dhcppkt::Dhcp) {
+        super::log_options(req)
+    }
+    pub fn to_array(mac: &[u8]) -> Option<[u8; 6]> {
+        super::to_array(mac)
+    }
+}
+
 enum RunError {
     ListenError(std::io::Error),
     RecvError(std::io::Error),
